@@ -23,6 +23,93 @@ ALPHABET = ["G", "C", "Lf", "Lr", "B-huge-length", "B-bad-zlib", "B-bad-brine", 
 KINDS = ["threaded", "pool", "forking"]
 
 
+# errno values of accept() that the behaviour of clients can provoke on a healthy server: POSIX ECONNABORTED ("a connection has
+# been aborted") and exhaustion of per-process / system-wide descriptors or buffers by the number of clients (the set CPython's
+# own asyncio server treats as "log and keep accepting")
+INDUCIBLE = {"ECONNABORTED": errno.ECONNABORTED, "EMFILE": errno.EMFILE, "ENFILE": errno.ENFILE, "ENOBUFS": errno.ENOBUFS, "ENOMEM": errno.ENOMEM}
+
+
+def ob_accept_fault(run, interp):
+    def ob(o):
+        o.symbolic = ["errno of a failing accept() call: Int in 1..200 (solver variable)", "server class: %s (exhaustive)" % KINDS,
+                      "position of the failure: before / after a well-behaved client is being served"]
+        o.bounds = {"failing_accept_calls": 1}
+        o.stubs = ["listener.accept() raises OSError(errno) once; everything else as in O1"]
+        acc = Acc()
+
+        def harness(c):
+            kind = KINDS[c.choose(len(KINDS), "server")]
+            pos = c.choose(2, "position")
+            E = c.fresh_int("errno")
+            c.assume(z3.And(E >= 1, E <= 200))
+            sc = W.Scenario(kind, False, interp)
+            c.notes.update(kind=kind, pos=pos, E=E)
+            try:
+                if pos == 1:
+                    sc.apply("G")
+                    sc.apply("C")
+                sc.accept_fails(SymInt(E))
+                sc.settle()
+                return W.judge(sc, "C16")
+            finally:
+                sc.finish()
+
+        def on_path(r):
+            if r.outcome == "abort":
+                return
+            n = r.ctx.notes
+            c = r.ctx
+            if r.outcome == "bound":
+                raise core.BoundExceeded(str(r.exc))
+            if r.outcome == "raise":
+                raise core.HarnessError("accept-fault history on %s raised %r" % (n["kind"], r.exc))
+            bad, summary = r.value
+            E = n["E"]
+            acc.inc("survives" if not bad else "ends")
+            if len(o.samples) < 6:
+                m = c.check_model()
+                o.samples.append({"server": n["kind"], "errno_example": m.eval(E, model_completion=True).as_long() if m is not None else None,
+                                  "outcome": [b[0] for b in bad] or "keeps serving"})
+            if not bad:
+                return
+            # the server stopped serving on this path: no client-inducible errno may lead here
+            ok, model = c.must_hold(z3.Not(z3.Or(*[E == v for v in INDUCIBLE.values()])))
+            if ok:
+                return
+            ev = model.eval(E, model_completion=True).as_long()
+            name = [k for k, v in INDUCIBLE.items() if v == ev][0]
+            sig = "accept-errno:%s" % n["kind"]
+            if any(v["signature"] == sig for v in o.violations):
+                return
+            run.replay(o, sig, "accept() failing with %s (errno %d, which clients can provoke) ends the accept loop: %s (server %s)" % (name, ev, bad[0][1], n["kind"]),
+                       """# replay of a counterexample found by /verif (property C16): real rpyc/utils/server.py over the model of props/srv_world.py
+import sys
+sys.path.insert(0, __import__("os").environ.get("VERIF_REPO", "/repo")); sys.path.insert(0, "/verif")
+from props import srv_world as W
+sc = W.Scenario(%r, False)
+try:
+    if %d == 1:
+        sc.apply("G"); sc.apply("C")
+    sc.accept_fails(%d)
+    sc.settle()
+    bad, summary = W.judge(sc, "C16")
+finally:
+    sc.finish()
+for b in bad: print(b)
+if bad:
+    print("REPRODUCED"); sys.exit(1)
+""" % (n["kind"], n["pos"], ev))
+
+        n_, incomplete = par_explore(run, o, harness, on_path, acc, split_depth=3)
+        o.paths = dict(acc.counts, total=n_)
+        if incomplete:
+            o.verdict = "inconclusive"
+            o.detail = incomplete
+        if not acc.counts.get("survives") or not acc.counts.get("ends"):
+            raise core.HarnessError("reachability twin: both a surviving and an ending errno class must exist (EINTR vs EBADF): %s" % acc.counts)
+    return ob
+
+
 def main():
     run = Run("C16", level="other")
     interp = Interp(interpret_prefixes=("rpyc.utils.server",))
@@ -38,6 +125,8 @@ def main():
     run.obligation("O0_translator_validation", "interpreter == CPython on sample histories of every server class", translator_validation(run, interp, "C16"))
     run.obligation("O1_histories", "after any history of misbehaving and well-behaved clients: the accept loop and the pool threads are alive, every well-behaved client "
                    "(and a fresh one) is answered correctly, each by its own service instance", explore(run, interp, "C16", ALPHABET, 4 if thorough else 3, KINDS))
+    run.obligation("O2_accept_errno", "a failing accept() whose errno clients can provoke (aborted connection, descriptor/buffer exhaustion) does not end the accept loop",
+                   ob_accept_fault(run, interp))
     run.note_encoded(interp)
     sys.exit(run.finish())
 
